@@ -32,6 +32,7 @@ func main() {
 	mutators := flag.String("mutators", "", "debug: print the mutation sites of function specs (comma separated) using the mutator summary of their package")
 	bounds := flag.String("bounds", "", "debug: run the K-BOUNDS length dataflow on function specs (comma separated), numberenc/binary readers only")
 	dumpAnchors := flag.Bool("dump-anchors", false, "print, as JSON, the unexported function anchors of all properties with their callers and those callers' unexported callees (input of props/anchors_frozen.go)")
+	vocab := flag.String("vocab", "", "with -dump-anchors: file of identifiers that rules use inside patterns; unexported functions and fields of those names are frozen too")
 	siblings := flag.String("siblings", "", "debug: compare the call/guard profiles of a family of sibling functions (comma separated specs)")
 	flag.Parse()
 	if *dumpAnchors {
@@ -48,6 +49,59 @@ func main() {
 				p.Run(&an.Ctx{P: prog, Prop: id, Tier: "quick", Start: time.Now(), VerifDir: *verif, Extra: map[string]any{}})
 			}()
 		}
+		// vocabulary: unexported functions and fields that rules name only inside patterns over
+		// canonical expressions (e.g. /^recv\.busy\(/) are frozen too, in the packages rules touch
+		if *vocab != "" {
+			words := map[string]bool{}
+			if b, err := os.ReadFile(*vocab); err == nil {
+				for _, w := range strings.Fields(string(b)) {
+					words[w] = true
+				}
+			}
+			touched := map[*types.Package]bool{}
+			for _, fn := range prog.ResolvedSpecs {
+				touched[fn.Pkg()] = true
+			}
+			for _, v := range prog.ResolvedFields {
+				touched[v.Pkg()] = true
+			}
+			strip := strings.NewReplacer("(", "", ")", "", "*", "")
+			for _, d := range prog.AllDecls() {
+				if d.Obj.Exported() || !words[d.Obj.Name()] || !touched[d.Obj.Pkg()] {
+					continue
+				}
+				spec := strip.Replace(an.FuncName(d.Obj))
+				if _, ok := prog.ResolvedSpecs[spec]; !ok && prog.Obj(spec) == d.Obj {
+					prog.ResolvedSpecs[spec] = d.Obj
+				}
+			}
+			for pkg := range touched {
+				if pkg == nil {
+					continue
+				}
+				rel := strings.TrimPrefix(strings.TrimPrefix(pkg.Path(), an.Mod), "/")
+				for _, nm := range pkg.Scope().Names() {
+					tn, ok := pkg.Scope().Lookup(nm).(*types.TypeName)
+					if !ok {
+						continue
+					}
+					st, ok := tn.Type().Underlying().(*types.Struct)
+					if !ok {
+						continue
+					}
+					for k := 0; k < st.NumFields(); k++ {
+						f := st.Field(k)
+						if f.Exported() || !words[f.Name()] || f.Embedded() {
+							continue
+						}
+						spec := rel + ":" + nm + "." + f.Name()
+						if prog.Obj(spec) == f {
+							prog.ResolvedFields[spec] = f
+						}
+					}
+				}
+			}
+		}
 		out := map[string]an.FrozenAnchor{}
 		for spec, fn := range prog.ResolvedSpecs {
 			if fn.Exported() || fn.Pkg() == nil || !strings.HasPrefix(fn.Pkg().Path(), an.Mod) {
@@ -63,6 +117,19 @@ func main() {
 			if sig.Recv() != nil {
 				fa.NParams++
 			}
+			ownNames := map[string]bool{}
+			ast.Inspect(src.Decl.Body, func(m ast.Node) bool {
+				if ce, ok := m.(*ast.CallExpr); ok {
+					if g := an.Callee(src.Pkg.TypesInfo, ce); g != nil && !g.Exported() && g.Pkg() == src.Pkg.Types && g != fn {
+						ownNames[g.Name()] = true
+					}
+				}
+				return true
+			})
+			for nm := range ownNames {
+				fa.Own = append(fa.Own, nm)
+			}
+			sort.Strings(fa.Own)
 			seenCaller := map[string]bool{}
 			for _, cs := range prog.CallsTo(fn) {
 				if cs.Caller == nil || cs.Caller.Obj == fn {
@@ -95,7 +162,37 @@ func main() {
 				out[spec] = fa
 			}
 		}
-		b, _ := json.MarshalIndent(out, "", " ")
+		fields := map[string]an.FrozenField{}
+		structs := map[string][]string{}
+		for spec, v := range prog.ResolvedFields {
+			if v.Pkg() == nil || !strings.HasPrefix(v.Pkg().Path(), an.Mod) {
+				continue
+			}
+			i := strings.LastIndex(spec, ".")
+			owner := prog.Obj(spec[:i])
+			if owner == nil {
+				continue
+			}
+			T := owner.Type()
+			if ptr, ok := T.Underlying().(*types.Pointer); ok {
+				T = ptr.Elem()
+			}
+			st, ok := T.Underlying().(*types.Struct)
+			if !ok {
+				continue
+			}
+			ff := an.FrozenField{Type: types.TypeString(v.Type(), types.RelativeTo(v.Pkg()))}
+			if _, ok := structs[spec[:i]]; !ok {
+				var names []string
+				for k := 0; k < st.NumFields(); k++ {
+					names = append(names, st.Field(k).Name())
+				}
+				sort.Strings(names)
+				structs[spec[:i]] = names
+			}
+			fields[spec] = ff
+		}
+		b, _ := json.MarshalIndent(map[string]any{"funcs": out, "fields": fields, "structs": structs}, "", " ")
 		fmt.Println(string(b))
 		return
 	}
